@@ -184,6 +184,7 @@ def interleaved(ctx, stride):
                         sc_.quiet = False
                         t.skip = cnt - 1
                     return runnable.index(t)
+            sc.step_timeout = 3.0
             sc.run(chooser)
             return res, sc
         _, sc0 = run([[0, 10 ** 9]])
@@ -199,6 +200,10 @@ def interleaved(ctx, stride):
                     ctx.ev()
                     res, sc = run(plan)
                     case = {"kind": "interleaved", "plan": plan}
+                    if sc._stuck_thread is not None:
+                        # preempted inside a critical section of the library that excludes the other thread
+                        ctx.event("interleaved:stuck-schedules")
+                        continue
                     for t in sc.threads:
                         if t.exc is not None:
                             ctx.fail("interleaved/exception/%s" % type(t.exc).__name__, case, repr(t.exc))
